@@ -35,6 +35,25 @@ struct Known {
     description: String,
 }
 
+/// Replays a stored violation of a check whose cases are enumerated rather than stored: re-runs the deterministic
+/// enumeration (quick tier, then thorough) looking for the stored signature. 1 = reproduced, 0 = not reproduced.
+pub fn replay_by_rerun(v: &Value, run: &dyn Fn(Tier) -> i32) -> i32 {
+    let sig = v["signature"].as_str().unwrap_or("").to_string();
+    if sig.is_empty() {
+        println!("REPLAY: the file names no signature");
+        return 2;
+    }
+    std::env::set_var("VERIF_REPLAY_SIG", &sig);
+    for tier in [Tier::Quick, Tier::Thorough] {
+        match run(tier) {
+            1 => return 1,
+            0 => {}
+            other => return other,
+        }
+    }
+    0
+}
+
 /// Collects the outcome of one check run and writes evidence / replay files.
 pub struct Reporter {
     pub property: String,
@@ -162,6 +181,20 @@ impl Reporter {
 
     fn finish_impl(mut self, emit: &dyn Fn(&str)) -> i32 {
         let wall = self.start.elapsed().as_secs_f64();
+        // replay by re-enumeration (checks whose cases are not stored one by one): the run looks for one signature,
+        // writes no evidence and no replay file, and says whether it showed up again
+        if let Ok(sig) = std::env::var("VERIF_REPLAY_SIG") {
+            if let Some(v) = self.violations.iter().find(|v| v.signature == sig) {
+                emit(&format!("REPLAY: reproduced in tier {}: {} - {}", self.tier.name(), v.signature, v.description));
+                return 1;
+            }
+            if let Some((desc, n)) = self.known_hits.get(&sig) {
+                emit(&format!("REPLAY: reproduced in tier {} (listed known finding, {n} cases): {sig} - {desc}", self.tier.name()));
+                return 1;
+            }
+            emit(&format!("REPLAY: signature {sig} did not occur in tier {} ({} other violations)", self.tier.name(), self.violations.len()));
+            return 0;
+        }
         for (sig, (desc, n)) in &self.known_hits {
             emit(&format!("KNOWN-FINDING: property={} {} ({}; {} cases)", self.property, sig, desc, n));
         }
